@@ -91,6 +91,25 @@ let do_head isreq hex cuts =
        String.concat "," (List.map (fun (k, v) -> hexs k ^ ":" ^ hexs v) c.h_hdrs))
   end
 
+(* heads read through the model of http_rd_buf (bounded buffer, pieces as they arrive) *)
+let do_hhead isreq hex cuts =
+  let d = bytes_of_hex hex in
+  let ps = pieces d (parse_cuts cuts (List.length d)) in
+  let name = if isreq then "hreq" else "hres" in
+  let (r, evs) = rd_feed_all c16_RDBUF_PULLUP_FIRST c16_REQ_PARSE_KEEPS_ERR c16_STATUS_STRICT isreq
+                   (nat_of_int (int_of_n c16_HTTP_BUFSIZE)) rd_init ps in
+  match evs with
+  | [] -> Printf.printf "%s rv=- incomplete\n" name
+  | HDone (rv, c) :: _ ->
+      if c.h_unk then print_endline "head unmodelled" else begin
+        let uri = if c.h_uri = [] then [n_of_int 47] else c.h_uri in
+        Printf.printf "%s rv=%d status=%d meth=%s uri=%s vers=%s reason=%s hdrs=%s\n"
+          name (int_of_n rv) (int_of_n (get_status c)) (hexs c.h_meth) (hexs uri) (hexs c.h_vers)
+          (if isreq then "-" else match c.h_reason with Some r -> hexs r | None -> "*")
+          (if c.h_hdrs = [] then "-" else
+           String.concat "," (List.map (fun (k, v) -> hexs k ^ ":" ^ hexs v) c.h_hdrs))
+      end
+
 (* ---------------------------------------------------------- WebSocket *)
 let zero_key = [N0; N0; N0; N0]
 
@@ -166,6 +185,8 @@ let () =
        | "chunk" :: maxsz :: hex :: cuts :: _ -> do_chunk maxsz hex cuts
        | "req" :: hex :: cuts :: _ -> do_head true hex cuts
        | "res" :: hex :: cuts :: _ -> do_head false hex cuts
+       | "hreq" :: hex :: cuts :: _ -> do_hhead true hex cuts
+       | "hres" :: hex :: cuts :: _ -> do_hhead false hex cuts
        | "ws" :: role :: mode :: maxframe :: recvmax :: recvtext :: _pre :: hex :: cuts :: _ ->
            do_ws role mode maxframe recvmax recvtext hex cuts
        | "wssend" :: role :: mode :: fragsize :: sendtext :: hex :: _ -> do_wssend role mode fragsize sendtext hex
